@@ -773,3 +773,90 @@ def precedence_programs(rnd, n_chains, per_program=30):
     for i in range(0, len(chains), per_program):
         progs.append(Module([guarded_print(parse_chain(c), k) for k, c in enumerate(chains[i:i + per_program])]))
     return progs
+
+
+# ======================================================================================================
+# C18: error reporting - call chains, raise sites, catch depths, exit codes
+def program_c18(rnd):
+    n = [0]
+
+    def fresh(p):
+        n[0] += 1
+        return f"{p}{n[0]}"
+
+    mod = [Class("MyErr", Var("Error"), [])]
+    depth = rnd.randint(1, 4)
+    kinds = [rnd.choice(["fn", "fn", "method", "init", "static", "lambda"]) for _ in range(depth)]
+    raise_at = rnd.randint(1, depth)
+    catch_at = rnd.choice([None, None] + list(range(0, raise_at + 1)))     # 0 = module level
+    action = rnd.choice(["raise", "raise", "runtime", "native", "exit", "none"])
+    wrap = rnd.random() < 0.3
+
+    def fail_stmt():
+        if action == "raise":
+            return Raise(Call(Var(rnd.choice(["Error", "MyErr", "TypeError"])), [Str("boom")]))
+        if action == "runtime":
+            return ExprSt(Bin("-", Str("s"), Num(1)))
+        if action == "native":
+            return ExprSt(Index(List([Num(1), Num(2)]), Num(9)))
+        if action == "exit":
+            return ExprSt(Call(Var("exit"), [Num(rnd.choice([0, 1, 2, 255]))]))
+        return Print(Str("fine"))
+
+    def catch_wrap(stmts, level):
+        e = fresh("e")
+        cb = [Print(Str(f"caught@{level}"), Prop(Var(e), "message")), Print(Prop(Var(e), "backTrace")), Print(Bin("==", Prop(Var(e), "inner"), Nil()))]
+        if wrap:
+            cb.append(Raise(Call(Var("MyErr"), [Str("wrapped"), Var(e)])))
+        return [Try(Block(stmts), [Catch(e, rnd.choice(["Error", None]), Block(cb))])]
+
+    # build callables innermost first
+    call_next = None       # expression calling the next (deeper) level
+    for level in range(depth, 0, -1):
+        kind = kinds[level - 1]
+        body = [Print(Str(f"enter{level}"))]
+        if rnd.random() < 0.5:
+            body.append(Let(fresh("pad"), Num(level)))
+        inner = []
+        if level == raise_at:
+            inner.append(fail_stmt())
+        elif call_next is not None:
+            inner.append(ExprSt(call_next))
+        if level > raise_at:
+            inner = [Print(Str("deep"))]
+        if catch_at == level:
+            inner = catch_wrap(inner, level)
+        elif level <= raise_at and rnd.random() < 0.35:
+            # a handler that does not match: the error passes through this frame
+            ne = fresh("ne")
+            inner = [Try(Block(inner), [Catch(ne, rnd.choice(["IndexError", "ValueError", "SyntaxError"]), Block([Print(Str("wrong handler"))]))])]
+        body += inner
+        body.append(Print(Str(f"leave{level}")))
+        name = fresh("f")
+        if kind == "fn":
+            mod.append(Fn(name, [], Block(body)))
+            call_next = Call(Var(name), [])
+        elif kind == "lambda":
+            mod.append(Let(name, Lambda([], Block(body))))
+            call_next = Call(Var(name), [])
+        else:
+            cname = fresh("K")
+            mname = "init" if kind == "init" else name
+            mkind = {"method": "method", "init": "init", "static": "static"}[kind]
+            mod.append(Class(cname, None, [Fn(mname, [], Block(body), mkind)]))
+            if kind == "method":
+                call_next = Invoke(Call(Var(cname), []), name, [])
+            elif kind == "static":
+                call_next = Invoke(Var(cname), name, [])
+            else:
+                call_next = Call(Var(cname), [])
+    top = [ExprSt(call_next)]
+    if catch_at == 0:
+        top = catch_wrap(top, 0)
+    if wrap and catch_at is not None and rnd.random() < 0.6:
+        e2 = fresh("e")
+        top = [Try(Block(top), [Catch(e2, "MyErr", Block([Print(Str("outer"), Prop(Var(e2), "message"), Prop(Prop(Var(e2), "inner"), "message")),
+                                                          Print(Prop(Var(e2), "backTrace"))]))])]
+    mod += top
+    mod.append(Print(Str("end")))
+    return Module(mod)
